@@ -24,7 +24,7 @@ open Panrpc
 theorem cur_facts : Facts Skeleton.current :=
   ⟨by decide, by decide, by decide, by decide, by decide, by decide, by decide, by decide, by decide⟩
 
-theorem cur_async : Async Skeleton.current := ⟨by decide, by decide, by decide, by decide, by decide⟩
+theorem cur_async : Async Skeleton.current := ⟨by decide, by decide, by decide, by decide, by decide, by decide⟩
 
 theorem cur_recv_before_write : Skeleton.current.stubRecvBeforeWrite = true := by decide
 
